@@ -265,7 +265,8 @@ def check_extractors(fx, rep):
         if all(t == ('discr', ('f', ('param', 1), 'this')) for t in dts):
             some_t = [a[1] for a in sw['arms'] if int(a[0]) == 1]
             some_t = some_t[0] if some_t else sw['otherwise']
-            none_t = sw['otherwise'] if some_t != sw['otherwise'] else [a[1] for a in sw['arms'] if int(a[0]) == 0][0]
+            zero = [a[1] for a in sw['arms'] if int(a[0]) == 0]
+            none_t = zero[0] if zero else sw['otherwise']
             some_r = b.reachable_from([some_t])
             none_r = b.reachable_from([none_t])
             consume = [bi for bi, t in b.calls() if F.norm_callee(t) in ('cel_interpreter::magic::arg_value_from_context', 'cel_interpreter::magic::arg_expr_from_context')]
